@@ -1,9 +1,10 @@
 """C17 Stochastic and robust problems."""
 from ..comp import slp as S
+from ..comp import costsonly as CO
 
 ID = 'C17'
 P = 'EAO.Properties.C17'
-THEOREMS = S.THEOREMS_C17
+THEOREMS = S.THEOREMS_C17 + CO.THEOREMS_C17_COSTS
 PARTIAL = S.PARTIAL_C17
 COMPONENTS = ['makeSlp vs stoch_lin_prog.make_slp (full problem incl. mapping labels and slp column)', 'SLP read-out (dispatch of future steps averaged) vs io.extract_output', 'robust value']
 RULE = ('small LP portfolios (one row per variable, several rows per variable, row-less variables, scaled asset), boundary at first/last step/off-grid, 1-4 samples; '
@@ -25,8 +26,18 @@ EXPLANATION = ('structure theorem about the model of make_slp + abstract two-sta
 
 def scenarios(seed, tier):
     n = 500 if tier == 'quick' else 3000
-    return S.cases(n, seed)
+    yield from S.cases(n, seed)
+    # the costs_only branch of every builder and create_cost_samples against their model and against the cost vector of the full set-up (comp/costsonly.py)
+    import random
+    rnd = random.Random(seed * 104729 + 1717)
+    for i in range(n // 3):
+        yield 'co%d' % i, {'_stream': 'costsonly', 'case': CO.gen_case(random.Random(rnd.getrandbits(48)))}
 
 
 def run_case(case, drv):
+    if isinstance(case, dict) and case.get('_stream') == 'costsonly':
+        rec = CO.run_case(case['case'], drv)
+        return {'evaluated': 1, 'nontrivial': rec.get('status') == 'ok', 'features': list(rec.get('features', [])) + ['status:' + str(rec.get('status'))],
+                'disagreements': [d if isinstance(d, dict) else {'component': 'costs_only', 'detail': d} for d in rec['disagreements']],
+                'violations': rec['violations']}
     return S.run_case(case, drv)
